@@ -71,6 +71,9 @@ fn main() {
                 "flushy" => seq::Profile::Flushy,
                 "cow" => seq::Profile::Cow,
                 "crashy" => seq::Profile::Crashy,
+                "frag" => seq::Profile::Frag,
+                "crashysparse" => seq::Profile::CrashySparse,
+                "sparse" => seq::Profile::Sparse,
                 _ => seq::Profile::General,
             };
             let nops: usize = m.get("ops").and_then(|s| s.parse().ok()).unwrap_or(40);
